@@ -98,6 +98,29 @@ def run_countries(shard, mon, S):
                     mon.tally("absent_branch_read_as_empty_tolerated")
                     continue
                 mon.viol("algorithm_reads_undefined_field", {**w, "component": comp}, "field defined for the country", sorted(pos))
+        if algo is not None:
+            # behavioural side of "reads only fields the country defines": generation and national validation
+            # must work on this country's fields (absent fields read as empty must not break the algorithm)
+            from random import Random  # noqa: PLC0415
+
+            okc = 0
+            for k in range(12):
+                od = observe(S.IBAN.random, cc, random=Random(f"c17/{cc}/{k}"), use_registry=False)
+                if od.ok:
+                    okc += 1
+                    ov = observe(od.value.validate, validate_bban=True)
+                    # (whether a draw also satisfies the national check is C09's business and only for the
+                    # countries that compute digits; here only: no foreign exception)
+                    if not ov.ok and not judge.is_lib_exc(ov.exc):
+                        mon.viol(f"algorithm_not_operable_on_country_fields:{ov.exc_name}", {**w, "iban": str(od.value)}, "library error or accept", ov.brief())
+                elif not judge.is_lib_exc(od.exc):
+                    mon.viol(f"algorithm_not_operable_on_country_fields:{od.exc_name}", w, "draw succeeds or overflow error", od.brief())
+            if okc == 0:
+                mon.viol("algorithm_never_produces_an_iban_for_country", w, "some of 12 seeded draws succeed", "all failed")
+            t2 = R.make_iban(cc, gen.random_bban(spec, env.rng("C17a", cc)))
+            ov = observe(S.IBAN, t2, validate_bban=True)
+            if not ov.ok and not judge.is_lib_exc(ov.exc):
+                mon.viol(f"algorithm_not_operable_on_country_fields:{ov.exc_name}", {**w, "iban": t2}, "library error or accept", ov.brief())
         if cc in N.COMPUTING and "national_checksum_digits" not in pos:
             mon.viol("check_field_missing_for_computing_country", w, "national_checksum_digits position", sorted(pos))
         if cc in N.CHECK_FIELD and "national_checksum_digits" in pos and N.LENGTHS.get(cc) == L and tuple(pos["national_checksum_digits"]) != N.CHECK_FIELD[cc]:
